@@ -257,7 +257,8 @@ impl Db {
         ensures mode matches IteratorMode::From(k, d) ==> r.items == self.s_scan(k@, d is Reverse) { unimplemented!() }
 }
 // `it.take_while(f1)` / `it.take_while(f1).filter(f2)` collected (the loop that consumes them is a plain for loop after R16):
-// ASSUMED std semantics, stated through an uninterpreted function of the two predicates; what a particular scan yields is
+// ASSUMED std semantics, stated through an uninterpreted function of the two predicates (p1 / p2 are the functions the
+// closures compute: call_ensures(f, (&e,), p(e)) for every e); what a particular scan yields is
 // stated by the ax_* scan axioms in the unit (key order of RocksDB = lexicographic byte order).
 // The keys / values are Box<[u8]> in the real code and Vec<u8> here (same operations used: len, starts_with, index, slice).
 pub uninterp spec fn tw_filter(items: Seq<(Vec<u8>, Vec<u8>)>, p1: spec_fn((Vec<u8>, Vec<u8>)) -> bool, p2: spec_fn((Vec<u8>, Vec<u8>)) -> bool) -> Seq<(Vec<u8>, Vec<u8>)>;
@@ -269,8 +270,8 @@ pub fn vf_db_tw_filter<F1: Fn(&(Vec<u8>, Vec<u8>)) -> bool, F2: Fn(&(Vec<u8>, Ve
     ensures
         exists|p1: spec_fn((Vec<u8>, Vec<u8>)) -> bool, p2: spec_fn((Vec<u8>, Vec<u8>)) -> bool|
             r@ == #[trigger] tw_filter(it.items, p1, p2)
-            && (forall|e: (Vec<u8>, Vec<u8>)| #[trigger] p1(e) == call_ensures(f1, (&e,), true))
-            && (forall|e: (Vec<u8>, Vec<u8>)| #[trigger] p2(e) == call_ensures(f2, (&e,), true)),
+            && (forall|e: (Vec<u8>, Vec<u8>)| call_ensures(f1, (&e,), #[trigger] p1(e)))
+            && (forall|e: (Vec<u8>, Vec<u8>)| call_ensures(f2, (&e,), #[trigger] p2(e))),
 { unimplemented!() }
 #[verifier::external_body]
 pub fn vf_db_tw<F1: Fn(&(Vec<u8>, Vec<u8>)) -> bool>(it: DbIter, f1: F1) -> (r: Vec<(Vec<u8>, Vec<u8>)>)
@@ -279,7 +280,7 @@ pub fn vf_db_tw<F1: Fn(&(Vec<u8>, Vec<u8>)) -> bool>(it: DbIter, f1: F1) -> (r: 
     ensures
         exists|p1: spec_fn((Vec<u8>, Vec<u8>)) -> bool, p2: spec_fn((Vec<u8>, Vec<u8>)) -> bool|
             r@ == #[trigger] tw_filter(it.items, p1, p2)
-            && (forall|e: (Vec<u8>, Vec<u8>)| #[trigger] p1(e) == call_ensures(f1, (&e,), true))
+            && (forall|e: (Vec<u8>, Vec<u8>)| call_ensures(f1, (&e,), #[trigger] p1(e)))
             && (forall|e: (Vec<u8>, Vec<u8>)| #[trigger] p2(e)),
 { unimplemented!() }
 // [u8]::to_vec (assumed)
@@ -325,4 +326,17 @@ pub open spec fn script_in(ss: Seq<ScriptStatus>, k: (Script, ScriptType)) -> bo
 // `get_filter_scripts().into_iter().map(|ss| (ss.script, ss.script_type)).collect::<HashSet<_>>()`
 #[verifier::external_body]
 pub fn vf_script_set(v: Vec<ScriptStatus>) -> (r: ScriptSet) ensures r.src == v@ { unimplemented!() }
+// `[a, b, c].concat()` of three byte slices (assumed)
+#[verifier::external_body]
+pub fn vf_concat3(a: &[u8], b: &[u8], c: &[u8]) -> (r: Vec<u8>) ensures r@ == a@ + b@ + c@ { unimplemented!() }
+// `X.iter().map(|ss| ss.block_number).min()`: the least block number, None for no scripts (assumed std semantics of Iterator::min)
+pub open spec fn is_min_bn(ss: Seq<ScriptStatus>, r: Option<u64>) -> bool {
+    (ss.len() == 0 ==> r.is_none())
+    && (ss.len() > 0 ==> r.is_some() && (exists|i: int| 0 <= i < ss.len() && (#[trigger] ss[i]).block_number == r.unwrap())
+            && (forall|i: int| 0 <= i < ss.len() ==> r.unwrap() <= (#[trigger] ss[i]).block_number))
+}
+#[verifier::external_body]
+pub fn vf_min_block_number(v: &[ScriptStatus]) -> (r: Option<u64>) ensures is_min_bn(v@, r) { unimplemented!() }
+#[verifier::external_body]
+pub fn vf_min_u64(a: u64, b: u64) -> (r: u64) ensures r == (if a <= b { a } else { b }) { unimplemented!() }
 // ===== end =====
